@@ -824,3 +824,53 @@ M('C19-byline-index', 'C19', F_LUA,
 M('C19-glue-into-comment', 'C19', F_LUA,
   "in (b'--', b'..', b'[[', b'[='):", "in (b'..', b'[[', b'[='):",
   expect='R-C01-noglue')
+
+# ---------------------------------------------------------------- C06 ----
+M('C06-revert-fix10-padding', 'C06', F_LEXER,
+  "                    if esc.isdigit() and self._data[i+1:i+2].isdigit():\n"
+  "                        # \"\\0\" followed by \"1\" must not read as \"\\01\".\n"
+  "                        esc = esc.rjust(3, b'0')\n", "",
+  expect='R-C06-escapes')
+M('C06-revert-fix11-hex', 'C06', F_LEXER,
+  "                    elif hex_m:\n"
+  "                        c = bytes([int(hex_m.group(1), 16)])\n"
+  "                        i += len(hex_m.group(0))\n", "",
+  expect='R-C06-escapes', accept_error=True)
+M('C06-drop-escape-r', 'C06', F_LEXER,
+  "    b'r': b'\\r', b't': b'\\t',", "    b't': b'\\t',", expect='R-C06-escapes')
+M('C06-store-one-less', 'C06', F_LEXER,
+  "                self._in_multiline_comment.append(s[:i])\n",
+  "                self._in_multiline_comment.append(s[:i-1])\n",
+  expect='R-C06-cover')
+M('C06-echo-drops-tail', 'C06', F_LUA,
+  "                yield b''.join(strs)\n                strs.clear()\n"
+  "        if strs:\n            yield b''.join(strs)\n\n\nclass PureLuaWriter",
+  "                yield b''.join(strs)\n                strs.clear()\n\n\nclass PureLuaWriter",
+  expect='R-C06-echo')
+M('C06-echo-skips-comments', 'C06', F_LUA,
+  "        for token in self._tokens:\n            strs.append(token.code)\n",
+  "        for token in self._tokens:\n"
+  "            if token.matches(lexer.TokComment):\n"
+  "                continue\n"
+  "            strs.append(token.code)\n", expect='R-C06-echo')
+M('C06-quote-not-escaped', 'C06', F_LEXER,
+  "                elif c == self._quote:\n"
+  "                    escaped_chrs.append(b'\\\\' + c)\n",
+  "                elif c == self._quote and False:\n"
+  "                    escaped_chrs.append(b'\\\\' + c)\n",
+  expect='R-C06-escapes', accept_error=True)
+M('C06-decimal-two-digits', 'C06', F_LEXER,
+  "                    num_m = re.match(br'\\d{1,3}', s[i+1:])\n",
+  "                    num_m = re.match(br'\\d{1,2}', s[i+1:])\n",
+  expect='R-C06-escapes')
+M('C06-default-writer-changed', 'C06', F_LUA,
+  "        if writer_cls is None:\n            writer_cls = LuaEchoWriter\n",
+  "        if writer_cls is None:\n            writer_cls = LuaMinifyTokenWriter\n",
+  expect='R-C06-echo')
+M('C06-long-string-loses-level', 'C06', F_LEXER,
+  "            return (b'[' + self._multiline_quote + b'[' +\n",
+  "            return (b'[' + b'[' +\n", expect='R-C06-cover')
+M('C06-reverse-table-extra-del', 'C06', F_LEXER,
+  "del _STRING_REVERSE_ESCAPES[b'\"']\n",
+  "del _STRING_REVERSE_ESCAPES[b'\"']\ndel _STRING_REVERSE_ESCAPES[b'\\\\']\n",
+  expect='R-C06-escapes')
